@@ -122,7 +122,11 @@ func (dt DateTime) TryEqual(input Any) (bool, bool) {
 	if !ok {
 		return false, true
 	}
-	if dt.l == val.l {
+	// Values of one layout that reaches the second are exact instants. Below that
+	// (an hour or a minute under an offset that is not a whole number of hours or
+	// minutes) the comparison is made on the components after normalisation, as
+	// it is between values of different layouts.
+	if dt.l == val.l && dateTimeMap[dt.l] >= dtSecond {
 		return dt.dateTime.Equal(val.dateTime), true
 	}
 
@@ -157,7 +161,7 @@ func (dt DateTime) Less(input Any) (Boolean, error) {
 	if !ok {
 		return false, fmt.Errorf("%w, %T, %T", ErrTypeMismatch, dt, input)
 	}
-	if dt.l == val.l {
+	if dt.l == val.l && dateTimeMap[dt.l] >= dtSecond {
 		return Boolean(dt.dateTime.Before(val.dateTime)), nil
 	}
 
